@@ -314,3 +314,95 @@ func reentrantBattery() {
 		return nil
 	})
 }
+
+// ---- result objects with a nil field ---------------------------------------------------------------------------
+// A result object whose constructor leaves a (non-last) field nil: whatever the container makes of the nil field
+// itself, every OTHER field is resolvable under exactly its own identity - a resolution that succeeds returns the value
+// the constructor put into THAT field.
+
+type outDB struct{ tag string }
+type outCache struct{ tag string }
+type outNilNamed struct {
+	godi.Out
+	Primary   *outDB `name:"primary"`
+	Replica   *outDB `name:"replica"`
+	Analytics *outDB `name:"analytics"`
+}
+type outNilTyped struct {
+	godi.Out
+	DB    *outDB
+	Cache *outCache
+	Extra *outDB `group:"extra"`
+}
+
+func newOutNilNamed() outNilNamed {
+	return outNilNamed{Primary: nil, Replica: &outDB{"replica"}, Analytics: &outDB{"analytics"}}
+}
+func newOutNilTyped() outNilTyped {
+	return outNilTyped{DB: nil, Cache: &outCache{"cache"}, Extra: &outDB{"extra"}}
+}
+
+func outNilFieldBattery() {
+	for _, life := range []string{"scoped", "transient", "singleton"} {
+		life := life
+		abuseCall("out_nil_field_"+life, func() error {
+			c := godi.NewCollection()
+			var err error
+			switch life {
+			case "scoped":
+				err = c.AddScoped(newOutNilNamed)
+				if err == nil {
+					err = c.AddScoped(newOutNilTyped)
+				}
+			case "transient":
+				err = c.AddTransient(newOutNilNamed)
+				if err == nil {
+					err = c.AddTransient(newOutNilTyped)
+				}
+			default:
+				err = c.AddSingleton(newOutNilNamed)
+				if err == nil {
+					err = c.AddSingleton(newOutNilTyped)
+				}
+			}
+			if err != nil {
+				return nil // the registration itself may be refused
+			}
+			p, err := c.Build()
+			if err != nil {
+				return nil // a nil singleton output may make Build fail: no claim
+			}
+			defer p.Close()
+			s, err := p.CreateScope(nil)
+			if err != nil {
+				return err
+			}
+			defer s.Close()
+			for _, order := range [][]string{{"replica", "analytics", "primary"}, {"analytics", "replica"}} {
+				for _, k := range order {
+					v, err := godi.ResolveKeyed[*outDB](s, k)
+					if err == nil && v != nil && v.tag != k {
+						return fmt.Errorf("field %q resolved to the value of field %q", k, v.tag)
+					}
+					if err == nil && v == nil && k != "primary" {
+						return fmt.Errorf("field %q resolved to nil without an error", k)
+					}
+				}
+			}
+			if v, err := godi.Resolve[*outCache](s); err == nil && (v == nil || v.tag != "cache") {
+				return fmt.Errorf("the cache field resolved to something else")
+			}
+			if v, err := godi.Resolve[*outDB](s); err == nil && v != nil {
+				return fmt.Errorf("the nil field resolved to the value of field %q", v.tag)
+			}
+			if vs, err := godi.ResolveGroup[*outDB](s, "extra"); err == nil {
+				for _, v := range vs {
+					if v != nil && v.tag != "extra" {
+						return fmt.Errorf("group extra holds the value of field %q", v.tag)
+					}
+				}
+			}
+			return nil
+		})
+	}
+}
